@@ -29,7 +29,7 @@ theorem synonym_eq_name : ∀ e ∈ MONO,
 example : monoEntry MONO (str% "Fucose") = monoEntry MONO (str% "Fuc") := by decide +kernel
 
 /-- the 27 names and 20 synonyms are 47 different strings (no synonym is another entry's name or synonym) -/
-theorem names_synonyms_distinct : (MONO.map (·.name) ++ (MONO.map (·.syns)).flatten).Nodup := by
+theorem names_synonyms_distinct : ((MONO).map (·.name) ++ ((MONO).map (·.syns)).flatten).Nodup := by
   decide +kernel
 
 /-- every entry has a composition, a monoisotopic and an average mass -/
